@@ -39,6 +39,8 @@ class World:
         self.factory = spyfs.make_spy(BACKENDS[backend], self.ctl)
         self.server = aioftp.Server(users, path_io_factory=self.factory, **server_kwargs)
         self._tree0 = tree
+        self.close_hung = False
+        self.close_error = None
 
     async def start(self):
         await self.server.start(self.host, self.port)
@@ -69,6 +71,20 @@ class World:
                 return full
             return {p[len(prefix):]: v for p, v in full.items() if p.startswith(prefix + "/")}
         return spyfs.fs_tree(self.base, with_mtime)
+
+    async def stop(self, timeout=10.0):
+        """Server.close() bounded in virtual time, so that a close() that hangs in the
+        code under test cannot mask what the case has already observed."""
+        t = asyncio.ensure_future(self.server.close())
+        await asyncio.wait([t], timeout=timeout)
+        if not t.done():
+            t.cancel()
+            self.close_hung = True
+            return False
+        if t.exception() is not None:
+            self.close_error = repr(t.exception())
+            return False
+        return True
 
     def cleanup(self):
         if self.tmpdir:
@@ -126,3 +142,20 @@ def run(main_factory, *, seed=0, net_kwargs=None, max_iterations=3_000_000):
         info["net"] = holder.get("net")
     info["hygiene"] = hyg
     return result, info
+
+
+class _Zero(dict):
+    def __missing__(self, key):
+        return 0
+
+
+def failed(info, context=""):
+    """Result for a case whose simulation did not complete.  A deadlock (nothing runnable,
+    no timer, main not done) means some await on the code under test never returned: every
+    wait of the harness itself is bounded, so this is reported as a hang of the code under
+    test.  Any other exception is a failure of the machinery: inconclusive."""
+    if info.get("deadlock"):
+        return {"violations": [{"key": "hang", "msg": f"the case never completed: {info['deadlock']} {context}"}],
+                "monitors": _Zero(), "sig": "hang", "nontrivial": False, "nevents": 0, "ncalls": 0, "site": "hang", "by": None,
+                "codes": None, "seq": None, "phase": "hang", "pool": None, "cut_done": False, "hang": True}
+    return {"inconclusive": info.get("error") or "unknown failure", "trace": info.get("trace", "")}
